@@ -308,12 +308,14 @@ func Yield(site int) {
 		return
 	}
 	g := s.cur
-	if g == nil || g.lockDepth > 0 {
+	if g == nil {
 		return
 	}
 	if site >= len(s.mask) || !s.mask[site] {
 		return
 	}
+	// a goroutine may park while it holds a mutex of the module: contenders then wait in the simulator
+	// (LockVia), so critical sections are preemptible and mutual exclusion is still the real mutex's
 	s.park(g, site)
 }
 
@@ -323,7 +325,7 @@ func (s *Sim) Point(site int) {
 		return
 	}
 	g := s.cur
-	if g == nil || g.lockDepth > 0 {
+	if g == nil {
 		return
 	}
 	s.park(g, site)
@@ -441,12 +443,6 @@ func (s *Sim) afterBlock(g *G, site int) {
 	s.mu.Lock()
 	g.blocked = false
 	s.mu.Unlock()
-	if g.lockDepth > 0 {
-		s.mu.Lock()
-		s.Hazards++
-		s.mu.Unlock()
-		return
-	}
 	s.park(g, site)
 }
 
@@ -759,7 +755,7 @@ func (w *Writer) Write(p []byte) (int, error) {
 	if s.OnWrite != nil {
 		s.OnWrite(g, w.Stream, p)
 	}
-	if w.Park && g != nil && !locked {
+	if w.Park && g != nil {
 		switch s.ParkMode {
 		case "chunk":
 			s.park(g, SiteWrite)
